@@ -86,7 +86,7 @@ def model_pre(e):
     return [eqn(q["ceq"], q["cps"], q["cpd"], S, D, i) for i in range(n)] + [eqn(q["aeq"], q["aps"], q["apd"], S, D, n)]
 
 
-def calibrate(trace_path, every):
+def calibrate(trace_path, every, offset=0):
     """largest observed deviation per event kind/form/component type as a fraction of the tolerance of Blend.tla!NearQ
     (2^-RelBits * max(scale, |value|)); the largest out-of-range excursion in units of RangeTol; model excursions of plus"""
     mx, rng, plus_max = {}, {}, F(0)
@@ -95,7 +95,7 @@ def calibrate(trace_path, every):
             d[k] = (v, e)
     with open(trace_path) as f:
         for i, line in enumerate(f):
-            if i % every:
+            if i % every != offset:
                 continue
             e = json.loads(line)
             if e.get("panic"):
